@@ -23,6 +23,7 @@ pub fn eval(args: &[String]) {
     }
     crate::worker::install_panic_hook();
     let vm = vm_with(s);
+    crate::fx::register(&vm);
     for (n, src) in &mods {
         println!("load {} => {:?}", n, vm.load_script(n, src).map_err(|e| e.to_string()));
     }
@@ -31,7 +32,14 @@ pub fn eval(args: &[String]) {
         for (k, chunk) in src.split("\n-----\n").enumerate() {
             let r = crate::worker::guarded(|| run_program(&vm, &format!("m{}", k), chunk));
             match r {
-                Ok(o) => println!("[{}] {}", k, match &o { Outcome::Value(v, t) => format!("OK {} : {}", v, t), Outcome::Error(c, m) => format!("ERR[{}] {}", c, m) }),
+                Ok(o) => {
+                    println!("[{}] {}", k, match &o { Outcome::Value(v, t) => format!("OK {} : {}", v, t), Outcome::Error(c, m) => format!("ERR[{}] {}", c, m) });
+                    if std::env::var("GV_FULL").is_ok() {
+                        if let Err(e) = vm.run_expr::<gluon::vm::api::OpaqueValue<&gluon::Thread, gluon::vm::api::Hole>>(&format!("mm{}", k), chunk) {
+                            println!("{}", e.to_string().lines().take(30).collect::<Vec<_>>().join("\n"));
+                        }
+                    }
+                }
                 Err((loc, msg)) => println!("[{}] PANIC {} {}", k, loc, msg),
             }
         }
